@@ -187,6 +187,10 @@ class SpecEval:
 
     def ev_BinOp(self, n, ctx):
         a, b = self.ev(n.left, ctx), self.ev(n.right, ctx)
+        if isinstance(a, VOpt):
+            a = a.val
+        if isinstance(b, VOpt):
+            b = b.val
         if type(n.op) is ast.Pow:
             ca, cb = ops.as_int(a).conc(), ops.as_int(b).conc()
             if ca is None or cb is None:
@@ -280,6 +284,10 @@ class SpecEval:
                 return self.apply_spec(SPECS[name], args, ctx)
             if name in REC_OF_CLASS or name in RECS:
                 return self.construct(name, n, ctx)
+            if self.hooks is not None:
+                r = self.hooks.builtins.spec_call(self, name, [self.ev(a, ctx) for a in n.args], ctx)
+                if r is not None:
+                    return r
         if isinstance(f, ast.Attribute):
             base = self.ev(f.value, ctx)
             if f.attr == 'get' and isinstance(base, VConstDict):
@@ -426,6 +434,8 @@ class SpecEval:
         return res
 
     def coerce(self, v, t):
+        if isinstance(v, VOpt) and t.kind != 'opt':
+            v = v.val
         return from_z3(to_z3(v, t), t)
 
     def unfold(self, sf, args, ctx):
